@@ -46,6 +46,10 @@ def run(rec, cfg):
         W8b.typed(rec, rng, W8b.TYPED_TEXTS)
     if cfg.shard == 4 % cfg.nshards:
         W8b.deep_under_default_limit(rec, "C10")
+    if cfg.shard == 5 % cfg.nshards:
+        from . import c12 as _c12
+
+        _c12.deep_repeat(rec, prop="C10")   # the same very long flat text asked repeatedly of one parser, default recursion limit
     seen = set()
 
     def one(s, parser=None):
@@ -177,6 +181,11 @@ def replay(rec, cfg, w):
 
         MP.attach_parser("C10", {"grammar", "closure", "history"})
         _W9.marathon(rec, cfg.rng("replay-marathon"), "C10")
+        return
+    if w.get("deep_repeat"):
+        from . import c12 as _c12
+
+        _c12.deep_repeat(rec, prop="C10")
         return
     if w.get("two_parsers"):
         from ..workloads import histories as _W8
